@@ -37,6 +37,9 @@
 (*    <<"U", kind, id, V, why>>            (unspecified, counted)           *)
 (*    <<"M", kind, id, V, why>>            (machinery: generator produced  *)
 (*                                          an expression UP cannot build) *)
+(*    <<"S", kind, id, V, why>>            (not replayed: the driver stops *)
+(*                                          calling the library after a    *)
+(*                                          few calls that do not return)  *)
 (***************************************************************************)
 EXTENDS SimplifyMenu, BigArith, Json, IOUtils
 
@@ -139,6 +142,7 @@ JudgeV(c, V) ==
    IN IF c.built.k # "ok"
       THEN (IF HasZeroDiv(e) THEN {<<"U", "build-divzero", "", "">>}
             ELSE {<<"M", "build-" \o c.built.exc, "", "">>})
+      ELSE IF o.k = "skip" THEN {<<"S", "not-replayed", "", "">>}
       ELSE IF o.k # "ok"
       THEN (IF HasZeroDiv(e) THEN {<<"U", "divzero", "", "">>}
             ELSE {<<"F", "raises-" \o o.exc, Feature(e), "">>})
@@ -200,6 +204,7 @@ BJudgeV(c, V) ==
    IN IF c.built.k # "ok"
       THEN (IF BHasZeroDiv(e) THEN {<<"U", "build-divzero", "", "">>}
             ELSE {<<"M", "build-" \o c.built.exc, "", "">>})
+      ELSE IF o.k = "skip" THEN {<<"S", "not-replayed", "", "">>}
       ELSE IF o.k # "ok"
       THEN (IF BHasZeroDiv(e) THEN {<<"U", "divzero", "", "">>}
             ELSE {<<"F", "big-raises-" \o o.exc, BShape(e), "">>})
